@@ -594,7 +594,7 @@ class StoreKeysHandler:
     def get(self, query):
         store = get_store()
         try:
-            keys = store.keys()
+            keys = list(store.keys())
             self.write(
                 json.dumps(
                     dict(query=None, message=f"Keys obtained", keys=keys, status="OK")
